@@ -293,4 +293,20 @@ def per_chain_sets(ev, chains_field='chains'):
                     for s_ in val[2][1:]:
                         fields[s_[1][4:]] = s_[2][0]
                     return ls, idx, base, fields
+    # functional spelling: the method returns the sampler rebuilt with `chains` collected from a map over its own chains, each
+    # element a rebuilt chain -- `Self { chains: self.chains.into_iter().enumerate().map(|(i, c)| c.set_seed(f(i))).collect() }`
+    from .speclib import fld, strip_eff, index_term, mk_comp
+    try:
+        cv = strip_eff(fld(ev.ret_term, chains_field)) if isinstance(ev.ret_term, T.Tm) else None
+    except Exception:
+        cv = None
+    own = T.app('.' + chains_field, T.sym('self'))
+    for ls in ev.vf.loops:
+        rt = getattr(ls, 'result_term', None)
+        if cv is None or ls.kind != 'forced' or not T.is_app(rt, 'with') or ls.ctx:
+            continue
+        base = rt[2][0]
+        if base is index_term(own, ls.var) and cv is mk_comp(ls.n, ls.var, rt):
+            ls.enum_like = True         # chain k is rebuilt from chain k with values computed from k
+            return ls, ls.var, base, {s_[1][4:]: s_[2][0] for s_ in rt[2][1:]}
     return None
